@@ -1,7 +1,7 @@
 (* Proofs about the file pool model: the statements restated in Properties.v. *)
 From Coq Require Import Lia ZifyBool ZifyNat ZifyN Permutation.
 From VF Require Import Pool.Model Pool.Spec.
-From VF Require Export Pool.ProofsAlloc Pool.ProofsInv.
+From VF Require Export Pool.ProofsAlloc Pool.ProofsInv Pool.ProofsDev Pool.ProofsWrite Pool.ProofsContent Pool.ProofsRead Pool.ProofsRefine.
 
 (* ---- sectors_partition ----------------------------------------------------------- *)
 
